@@ -440,7 +440,10 @@ static void run_C13(const Args &a, long cs) {
 	int ncorr = cs % 7 == 0 ? 0 : (r.coin(0.25) ? 2 : 1);
 	for (int q = 0; q < ncorr; q++) {
 		int d = (int)r.below(p.nd);
-		switch (r.below(22)) {
+		switch (r.below(24)) {
+		case 22: if (d < (int)kn.size() && kn[d].size() >= 4) { // a NaN (or infinity) hides an out-of-order knot from a comparison-based test for sortedness
+				size_t i = 1 + r.below(kn[d].size() - 3); double sp[] = {NAN, NAN, INFINITY, -INFINITY}; double v = sp[r.below(4)]; std::swap(kn[d][i + 1], kn[d][i - 1]); kn[d][i] = v; must_reject = true; applied.push_back("knots-unsorted-behind-a-non-finite-value"); } break;
+		case 23: if (d < (int)kn.size() && kn[d].size() >= 3) { kn[d][r.below(kn[d].size())] = r.coin(0.5) ? NAN : (r.coin(0.5) ? INFINITY : -INFINITY); applied.push_back("non-finite-knot"); } break; // sortedness is judged below on the final state
 		case 0: if (!w.empty()) w.pop_back(); must_reject = true; applied.push_back("weights-one-short"); break;
 		case 1: w.push_back(1.0); must_reject = true; applied.push_back("weights-one-long"); break;
 		case 2: w.clear(); must_reject = true; applied.push_back("weights-empty"); break;
@@ -474,6 +477,7 @@ static void run_C13(const Args &a, long cs) {
 			for (auto &I : idx) if (I[d] >= ranges[d]) bad = true;
 			if (co[d].size() < ranges[d]) bad = true;
 			if (!std::is_sorted(kn[d].begin(), kn[d].end())) bad = true;
+			{ std::vector<double> fin; for (double v : kn[d]) if (std::isfinite(v)) fin.push_back(v); if (!std::is_sorted(fin.begin(), fin.end())) bad = true; } // unsorted however the non-finite entries are read
 			if (kn[d].size() < 2 * (uint64_t)ord[d] + 2) bad = true;
 		}
 		must_reject = bad;
